@@ -442,7 +442,7 @@ def hyp_part(n_examples, shard, n_sub):
                 # the dialogue at a terminal: answers typed ahead on a pseudo-terminal, under several terminal environments
                 term = dict(inp, pty=[80, 24], console_script=cs, env=TERMINAL_ENVS[(k // 2) % len(TERMINAL_ENVS)])
                 part.classes["dialogue at a terminal"] += 1
-                f = check_cli(term)
+                f = part.split_known(check_cli(term), term)       # listed findings (bare v2 score lines) are counted, not raised
                 if f:
                     raise runner.Falsified("cli", term, f)
             if a["out"] != b["out"] and not decoded_differently(sub):
